@@ -444,6 +444,29 @@ def wide_worker(shard):
     return acc
 
 
+def large_worker(shard):
+    """Large thresholds (the statement says 'for every threshold k ... with 2 <= k <= n'): k = 16..128, where the ssss term
+    X^k reaches degree 128 for small share indexes (2^128, 4^64, 16^32, 256^16 = x^128).  split() against the reference
+    polynomial, then combine() of k shares in three orders, one of them containing the critical indexes."""
+    k, n, ssss, must = shard
+    acc = Acc()
+    P = phi()
+    secret = P[12]
+    tape = tuple(P[11 + (i % 3)] ^ (i * 0x0101010101010101) for i in range(k - 1))
+    shares = check_split(k, n, ssss, secret, tape, acc, part="large-split")
+    if shares is not None and len(shares) == n:
+        idx = [i for i, _ in shares]
+        first = tuple(idx[:k])
+        withmust = tuple([i for i in must if i in idx] + [i for i in idx if i not in must])[:k]
+        for order in {first, tuple(reversed(first)), withmust, tuple(reversed(idx))[:k]}:
+            acc.count("evaluations")
+            acc.count("combine_large_calls")
+            ok = judge_rebuild("k-shares", k, n, ssss, secret, tape, shares, order, acc)
+            acc.seen("classes", ("large", k, n, ssss, ok))
+    acc.sample({"part": "large-threshold", "k": k, "n": n, "ssss": ssss, "indexes_forced_into_one_subset": list(must)})
+    return acc
+
+
 # ---------------------------------------------------------------------------
 # part 3: repeated share indexes must be refused
 # ---------------------------------------------------------------------------
@@ -898,6 +921,11 @@ def run(ctx):
                 shards.append((1.5 * len(tapes), wide_worker, (k, 300, ssss, [(sec, t) for t in tapes])))
         if not q:
             shards.append((6, wide_worker, (2, 65537, ssss, [(s1, (P[12],)), (allones, (0,))])))
+    # large thresholds (both modes): (k, n, indexes that must appear together in one k-subset)
+    for k, n, must in ([(16, 257, (256, 257)), (32, 32, (16, 17))] +
+                       ([] if q else [(64, 64, (4, 5)), (128, 128, (2, 3)), (17, 40, (16, 17)), (33, 40, (2, 3, 4, 5))])):
+        for ssss in (False, True):
+            shards.append((4.0, large_worker, (k, n, ssss, must)))
     # split
     nsplit = {}
     for k, n in KN:
